@@ -67,6 +67,10 @@ func c10API(ctx *core.Ctx, idx int) core.Result {
 	}
 	add(value.NewString("hello world"), val.StrV("hello world"), "str")
 	add(value.NewString(""), val.StrV(""), "empty-str")
+	// a long string and short distinct tails: concatenation results of 32 bytes and more, extended more than once
+	add(value.NewString("the quick brown fox jumps over the lazy dog"), val.StrV("the quick brown fox jumps over the lazy dog"), "long-str")
+	add(value.NewString("-first"), val.StrV("-first"), "tail1")
+	add(value.NewString("-other"), val.StrV("-other"), "tail2")
 	fail := func(d string) core.Result {
 		t := ops
 		if len(t) > 40 {
@@ -207,6 +211,8 @@ func c10Program(r *core.Rng) []ast.Node {
 		ast.Assign{Name: "xa", Value: arr(1, 2, 3, 4, 5, 6)},
 		ast.Assign{Name: "xs", Value: ast.StrLit{V: "abcdefgh"}},
 		ast.Assign{Name: "xk", Value: il(int64(r.Intn(50)))},
+		// a long string that is itself the result of a concatenation
+		ast.Assign{Name: "xl", Value: ast.Binary{Op: "+", L: ast.StrLit{V: "0123456789abcdef"}, R: ast.StrLit{V: "ghijklmnopqrstuvwxyzABCDEF"}}},
 		// a literal with a constant prefix and a computed tail (constant prefix lives in the data segment)
 		ast.Assign{Name: "mklit", Value: ast.FuncLit{Params: []string{"v"}, Body: ast.ArrayLit{Elems: []ast.Node{il(7), il(8), nm("v"), il(9)}}}},
 		ast.Assign{Name: "mkconst", Value: ast.FuncLit{Body: arr(10, 20, 30)}},
@@ -235,6 +241,7 @@ func c10Program(r *core.Rng) []ast.Node {
 	)
 	vars := []string{"xa"}
 	svars := []string{"xs"}
+	lvars := []string{"xl"}
 	fresh := 0
 	newVar := func(p string) string {
 		fresh++
@@ -263,8 +270,16 @@ func c10Program(r *core.Rng) []ast.Node {
 			if r.Chance(1, 3) {
 				// the right operand is itself a sum (the sum on the left is then not the instruction before)
 				ss = append(ss, ast.Assign{Name: v, Value: ast.Binary{Op: "+", L: ast.Slice{X: a, I: il(0), J: il(1)}, R: ast.Binary{Op: "+", L: arr(80 + r.Intn(9)), R: arr(90 + r.Intn(9))}}})
-			} else if r.Chance(1, 4) {
-				ss = append(ss, ast.Assign{Name: v, Value: ast.Binary{Op: "+", L: src, R: arr(r.Intn(9))}})
+			} else if r.Chance(1, 3) {
+				// (the appended one-element literal is a constant or computed)
+				var one ast.Node = arr(r.Intn(9))
+				if r.Bool() {
+					one = ast.ArrayLit{Elems: []ast.Node{ast.Binary{Op: "+", L: nm("xk"), R: il(int64(r.Intn(9)))}}}
+				}
+				if r.Chance(1, 3) {
+					src = ast.Slice{X: a, I: il(0), J: ast.Binary{Op: "/", L: ast.Unary{Op: "#", X: a}, R: il(2)}}
+				}
+				ss = append(ss, ast.Assign{Name: v, Value: ast.Binary{Op: "+", L: src, R: one}})
 			} else {
 				ss = append(ss, ast.Assign{Name: v, Value: ast.Slice{X: src, I: lo, J: ast.Binary{Op: "-", L: ast.Unary{Op: "#", X: src}, R: il(int64(r.Intn(2)))}}})
 			}
@@ -366,6 +381,13 @@ func c10Program(r *core.Rng) []ast.Node {
 					nm(v)}})
 			}
 			vars = append(vars, v)
+		case 13: // one long string extended twice with different tails, the results kept
+			s := nm(lvars[r.Intn(len(lvars))])
+			v1, v2 := newVar("yl"), newVar("yl")
+			t1 := []ast.Node{ast.StrLit{V: fmt.Sprintf("-first%d", r.Intn(9))}, icall("toa", nm("xk")), ast.Slice{X: nm("xs"), I: il(0), J: il(int64(r.Range(1, 8)))}}[r.Intn(3)]
+			t2 := []ast.Node{ast.StrLit{V: fmt.Sprintf("-other%d", r.Intn(9))}, icall("mkstr"), ast.Index{X: nm("xs"), I: il(int64(r.Intn(8)))}}[r.Intn(3)]
+			ss = append(ss, ast.Assign{Name: v1, Value: ast.Binary{Op: "+", L: s, R: t1}}, ast.Assign{Name: v2, Value: ast.Binary{Op: "+", L: s, R: t2}})
+			lvars = append(lvars, v1, v2)
 		default: // literals again: must evaluate to the same value as the first time
 			ss = append(ss, ast.ArrayLit{Elems: []ast.Node{icall("mkconst"), icall("mklit", il(1)), icall("mkstr"), icall("rec", il(2)), arr(1, 2, 3)}})
 		}
